@@ -53,3 +53,29 @@ package l1infotreesync
 //@   requires l != nil
 //@   modifies nothing
 //@   ensures[leaf-value] result == l1LeafValue(l.MainnetExitRoot, l.RollupExitRoot, l.PreviousBlockHash, l.Timestamp)
+
+// ---- verified batches -> rollup exit tree (C11): a zero exit root is ignored, an exit root equal to the rollup's
+// current leaf (read inside the open transaction, under the tree's last root) is ignored, anything else is written at
+// position rollupID-1 and recorded together with the resulting rollup exit root.
+//@ func (p *processor) isNewValueForRollupExitTree
+//@   props C11
+//@   requires p != nil && p.rollupExitTree != nil && p.rollupExitTree.Tree != nil && event != nil && tx != nil
+//@   modifies nothing
+//@   ensures[unchanged-means-the-current-leaf-is-that-root] (result1 == nil && !result0) ==> rootLastIdx(p.rollupExitTree.Tree) >= 0 && desc(rhtL(p.rollupExitTree.Tree), rhtR(p.rollupExitTree.Tree), rootHash(p.rollupExitTree.Tree)[rootLastIdx(p.rollupExitTree.Tree)], uint32(event.RollupID - 1), 0) == event.ExitRoot
+//@   ensures[empty-tree-is-new] (result1 == nil && rootLastIdx(p.rollupExitTree.Tree) == -1) ==> result0
+
+//@ extern github.com/russross/meddler.Insert@l1infotreesync.(*processor).processVerifyBatches (db, table, src)
+//@   modifies stmtFail
+//@   ensures stmtFail == old(stmtFail) + ite(result == nil, 0, 1)
+
+//@ func (p *processor) processVerifyBatches
+//@   props C11
+//@   requires p != nil && p.rollupExitTree != nil && p.rollupExitTree.Tree != nil && len(p.rollupExitTree.zeroHashes) == 33
+//@   requires rhtOK(rhtHas(p.rollupExitTree.Tree), rhtL(p.rollupExitTree.Tree), rhtR(p.rollupExitTree.Tree))
+//@   modifies rootHas(p.rollupExitTree.Tree), rootHash(p.rollupExitTree.Tree), rootBlock(p.rollupExitTree.Tree), rootPos(p.rollupExitTree.Tree), rhtHas(p.rollupExitTree.Tree), rhtL(p.rollupExitTree.Tree), rhtR(p.rollupExitTree.Tree), leafNow(p.rollupExitTree), stmtFail, upsertCalls, event.BlockNumber, event.RollupExitRoot
+//@   ensures[rht-content-addressed] rhtOK(rhtHas(p.rollupExitTree.Tree), rhtL(p.rollupExitTree.Tree), rhtR(p.rollupExitTree.Tree))
+//@   ensures[success-means-stored] result == nil ==> stmtFail == old(stmtFail)
+//@   ensures[zero-root-ignored] (event != nil && tx != nil && event.ExitRoot == ZeroHash) ==> result == nil && leafNow(p.rollupExitTree) == old(leafNow(p.rollupExitTree)) && rhtHas(p.rollupExitTree.Tree) == old(rhtHas(p.rollupExitTree.Tree)) && rootHas(p.rollupExitTree.Tree) == old(rootHas(p.rollupExitTree.Tree))
+//@   ensures[written-at-the-rollup-position] (result == nil && upsertCalls == old(upsertCalls) + 1) ==> leafNow(p.rollupExitTree) == upd(old(leafNow(p.rollupExitTree)), uint32(event.RollupID - 1), event.ExitRoot) && event.BlockNumber == blockNumber && desc(rhtL(p.rollupExitTree.Tree), rhtR(p.rollupExitTree.Tree), event.RollupExitRoot, uint32(event.RollupID - 1), 0) == event.ExitRoot
+//@   ensures[at-most-one-write] upsertCalls == old(upsertCalls) || upsertCalls == old(upsertCalls) + 1
+//@   ensures[skipped-only-if-unchanged] (result == nil && event != nil && tx != nil && event.ExitRoot != ZeroHash && upsertCalls == old(upsertCalls)) ==> desc(old(rhtL(p.rollupExitTree.Tree)), old(rhtR(p.rollupExitTree.Tree)), old(rootHash(p.rollupExitTree.Tree))[rootLastIdx(p.rollupExitTree.Tree)], uint32(event.RollupID - 1), 0) == event.ExitRoot
